@@ -1081,7 +1081,7 @@ Proof. intros H ->. exact H. Qed.
 Lemma udn_core_seg st n pxo a s' : user_delete_node_core st n pxo = Ok a s' ->
   exists s, seg s = seg st /\ exists b, do_del_node s n pxo = Ok b s'.
 Proof.
-  unfold user_delete_node_core. intros H. destruct (negb (has_node st n)); [discriminate|].
+  unfold user_delete_node_core. intros H. destruct (px_check st pxo); [discriminate|]. destruct (negb (has_node st n)); [discriminate|].
   ok_step H acts1 s1 H1. assert (E1 := ok_seg_eq _ _ _ _ (seg_eq_udn_preds _ _ _ _) H1).
   ok_step H acts2 s2 H2. assert (E2 := ok_seg_eq _ _ _ _ (seg_eq_udn_succs _ _ _ _) H2).
   ok_step H ao s3 H3.
@@ -1115,7 +1115,7 @@ Proof.
   assert (Etn := seg_track_neighbors st T (match tv with VZ z => z | _ => 0 end)).
   destruct (track_neighbors st T _) as [st0 [pred succ]]. cbn [fst] in Etn.
   ok_step H conflicts s1 H1. assert (E1 : s1 = st0) by (rewrite <- (uan_conflicts_state st0 pred succ force), H1; reflexivity). subst s1.
-  cbn [negb] in H.
+  cbn [negb] in H. destruct (px_check st0 (Some p)); [discriminate|].
   ok_step H acts s2 H2. assert (E2 := ok_seg_eq _ _ _ _ (seg_eq_uan_cut _ _ _) H2).
   ok_step H acts' s3 H3.
   assert (E3 : seg s3 = seg s2).
@@ -1459,7 +1459,7 @@ Ltac fp_eq := apply seg_fp_of_eq; first [seg_step | apply seg_eq_udn_preds | app
 Lemma seg_fp_udn_core R st n pxo : (forall s p, seg s = seg st -> eff_pixels s n pxo = Some p -> px_in R p) ->
   seg_fp R st (rstate (user_delete_node_core st n pxo)).
 Proof.
-  intros Hp. unfold user_delete_node_core. destruct (negb (has_node st n)); [apply seg_fp_refl|].
+  intros Hp. unfold user_delete_node_core. destruct (px_check st pxo); [apply seg_fp_refl|]. destruct (negb (has_node st n)); [apply seg_fp_refl|].
   (* everything before DeleteNode leaves the array alone *)
   assert (Hgen : forall (r : res (list action)) (k : list action -> state -> res action),
             seg_eq st (rstate r) -> (forall x s, seg s = seg st -> seg_fp R s (rstate (k x s))) -> seg_fp R st (rstate (bind r k))).
@@ -1497,6 +1497,7 @@ Proof.
   apply bind_rel; [apply seg_fp_trans|rewrite uan_conflicts_state; apply seg_fp_refl|]. intros conflicts s1 H1.
   assert (E1 : s1 = st0) by (rewrite <- (uan_conflicts_state st0 pred succ force), H1; reflexivity). subst s1.
   destruct (match pxo with None => negb (all_in (pos_keys (ft st0)) a1) | Some _ => false end); [apply seg_fp_refl|].
+  destruct (px_check st0 pxo); [apply seg_fp_refl|].
   apply bind_rel; [apply seg_fp_trans|fp_eq|]. intros acts s2 _.
   apply bind_rel; [apply seg_fp_trans| |].
   - destruct pred as [pp|]; [destruct succ as [cc|]|]; try apply seg_fp_refl.
@@ -1608,7 +1609,7 @@ Qed.
 
 Lemma udn_core_out R st n p a s' : user_delete_node_core st n (Some p) = Ok a s' -> px_in R p -> act_ok R a.
 Proof.
-  unfold user_delete_node_core. intros H Hp. destruct (negb (has_node st n)); [discriminate|].
+  unfold user_delete_node_core. intros H Hp. destruct (px_check st (Some p)); [discriminate|]. destruct (negb (has_node st n)); [discriminate|].
   ok_step H acts1 s1 H1. apply (udn_preds_out R) in H1; [|exact I].
   ok_step H acts2 s2 H2. apply (udn_succs_out R) in H2; [|exact H1].
   ok_step H ao s3 H3. destruct ao as [acts3 orphans].
